@@ -553,6 +553,333 @@ theorem toWFields_eq_std (F : Facts) (P : Prog) (vs : List GoVal) : ∀ (defs : 
 termination_by structural vs
 end
 
+/-! ### reflexivity on deep copies
+
+`selfOK P ty a`: `a` is a value of type `ty` as a Go program can hold it (base slots hold values of their type, map
+keys pairwise different under Go's `==`), it holds NO NaN, and every map with struct-typed keys is empty.
+For such values a deep copy compares equal. (NaN and struct-keyed maps are exactly what breaks it.) -/
+
+def nanFreeBase (ty : Ty) (v : GoVal) : Bool :=
+  baseOK ty v && (match v with | .dbl x => !isNaN x | _ => true)
+
+/-- the Go map invariant: every key equals itself (no NaN) and differs from every later key -/
+def distinctKeys (k : Ty) : List (GoVal × GoVal) → Bool
+  | [] => true
+  | (key, _) :: r => Std.keyEq k key key && r.all (fun e => !Std.keyEq k key e.1) && distinctKeys k r
+
+mutual
+def selfOK (P : Prog) (ty : Ty) (a : GoVal) : Bool :=
+  match ty, a with
+  | .struct _, .nil => true
+  | .struct i, .strct fs =>
+      match P.struct? i with
+      | some sd => selfOKFields P sd.fields fs
+      | none => false
+  | .list _, .nil => true
+  | .list e, .list xs => selfOKList P e xs
+  | .set _, .nil => true
+  | .set e, .list xs => selfOKList P e xs
+  | .map _ _, .nil => true
+  | .map k v, .map kvs => if k.isStruct then kvs.isEmpty else distinctKeys k kvs && selfOKEntries P v kvs
+  | ty, a => nanFreeBase ty a
+termination_by structural a
+def selfOKList (P : Prog) (e : Ty) (xs : List GoVal) : Bool :=
+  match xs with
+  | [] => true
+  | x :: r => selfOK P e x && selfOKList P e r
+termination_by structural xs
+def selfOKEntries (P : Prog) (v : Ty) (kvs : List (GoVal × GoVal)) : Bool :=
+  match kvs with
+  | [] => true
+  | (_, val) :: r => selfOK P v val && selfOKEntries P v r
+termination_by structural kvs
+def selfOKFields (P : Prog) (defs : List FieldDef) (as : List GoVal) : Bool :=
+  match defs, as with
+  | [], [] => true
+  | f :: fs, a :: as =>
+      (if isPtrField f then isNilV a || nanFreeBase f.ty a else selfOK P f.ty a) && selfOKFields P fs as
+  | _, _ => false
+termination_by structural as
+end
+
+theorem baseEq_self (ty : Ty) (a : GoVal) (h : nanFreeBase ty a = true) : baseEq ty a a = true := by
+  simp only [nanFreeBase, Bool.and_eq_true] at h
+  cases ty <;> cases a <;> simp_all [baseOK, baseEq, goEq, dblEq]
+
+theorem index_self (k : Ty) : ∀ (m : List (GoVal × GoVal)), distinctKeys k m = true →
+    ∀ e ∈ m, index k m e.1 = some e.2 := by
+  intro m
+  induction m with
+  | nil => intro _ e he; cases he
+  | cons x r ih =>
+    obtain ⟨k0, v0⟩ := x
+    intro h e he
+    simp only [distinctKeys, Bool.and_eq_true, List.all_eq_true, Bool.not_eq_true'] at h
+    cases List.mem_cons.mp he with
+    | inl heq => subst heq; simp [index, List.find?, h.1.1]
+    | inr hr =>
+      have hne : Std.keyEq k k0 e.1 = false := h.1.2 e hr
+      have := ih h.2 e hr
+      simp only [index] at this ⊢
+      simp only [List.find?, hne]
+      exact this
+
+mutual
+theorem deepEqual_refl (F : Facts) (hF : F.lenTest = true) (P : Prog) (a : GoVal) :
+    ∀ (ty : Ty), selfOK P ty a = true → deepEqual F P ty a a = .ok true := by
+  intro ty h
+  have base : ∀ (ty : Ty) (a : GoVal), nanFreeBase ty a = true → (Res.ok (baseEq ty a a) : Res Bool) = .ok true := by
+    intro ty a h; rw [baseEq_self ty a h]
+  cases a with
+  | nil =>
+    cases ty <;> first
+      | (simp only [selfOK] at h; simp only [deepEqual]; exact base _ _ h)
+      | simp [deepEqual, isNilV, elemsOf, entriesOf]
+  | bool x => cases ty <;> (simp only [selfOK] at h; simp only [deepEqual]; exact base _ _ h)
+  | int x => cases ty <;> (simp only [selfOK] at h; simp only [deepEqual]; exact base _ _ h)
+  | dbl x => cases ty <;> (simp only [selfOK] at h; simp only [deepEqual]; exact base _ _ h)
+  | bytes x => cases ty <;> (simp only [selfOK] at h; simp only [deepEqual]; exact base _ _ h)
+  | list xs =>
+    cases ty <;> try (simp only [selfOK] at h; simp only [deepEqual]; exact base _ _ h)
+    all_goals
+      rename_i e
+      simp only [selfOK] at h
+      have := deepEqElems_refl F hF P xs e [] h
+      simpa [deepEqual, elemsOf] using this
+  | map kvs =>
+    cases ty <;> try (simp only [selfOK] at h; simp only [deepEqual]; exact base _ _ h)
+    rename_i k v
+    simp only [selfOK] at h
+    simp only [deepEqual, entriesOf, bne_self_eq_false, Bool.and_false, Bool.false_eq_true, if_false]
+    by_cases hk : k.isStruct = true
+    · simp only [hk, if_true] at h
+      have : kvs = [] := by simpa using h
+      subst this
+      simp [deepEqEntries]
+    · simp only [hk, if_false, Bool.false_eq_true, Bool.and_eq_true] at h
+      exact deepEqEntries_refl F hF P kvs k v kvs (fun e he => index_self k kvs h.1 e he) h.2
+  | strct fs =>
+    cases ty <;> try (simp only [selfOK] at h; simp only [deepEqual]; exact base _ _ h)
+    rename_i i
+    simp only [selfOK] at h
+    simp only [deepEqual]
+    cases hs : P.struct? i with
+    | none => simp [hs] at h
+    | some sd =>
+      simp only [hs] at h ⊢
+      exact deepEqFields_refl F hF P fs sd.fields h
+termination_by structural a
+theorem deepEqElems_refl (F : Facts) (hF : F.lenTest = true) (P : Prog) (xs : List GoVal) :
+    ∀ (e : Ty) (pre : List GoVal), selfOKList P e xs = true →
+      deepEqElems F P e xs pre.length (pre ++ xs) = .ok true := by
+  intro e pre h
+  cases xs with
+  | nil => simp [deepEqElems]
+  | cons v r =>
+    simp only [selfOKList, Bool.and_eq_true] at h
+    have hget : (pre ++ v :: r)[pre.length]? = some v := by simp
+    simp only [deepEqElems, hget]
+    rw [deepEqual_refl F hF P v e h.1, bind_ok_ite]
+    have ih := deepEqElems_refl F hF P r e (pre ++ [v]) h.2
+    simpa using ih
+termination_by structural xs
+theorem deepEqEntries_refl (F : Facts) (hF : F.lenTest = true) (P : Prog) (kvs : List (GoVal × GoVal)) :
+    ∀ (k v : Ty) (src : List (GoVal × GoVal)), (∀ e ∈ kvs, index k src e.1 = some e.2) → selfOKEntries P v kvs = true →
+      deepEqEntries F P k v kvs src = .ok true := by
+  intro k v src hidx h
+  cases kvs with
+  | nil => simp [deepEqEntries]
+  | cons x r =>
+    obtain ⟨key, val⟩ := x
+    simp only [selfOKEntries, Bool.and_eq_true] at h
+    have h0 := hidx (key, val) (by simp)
+    simp only [deepEqEntries, h0]
+    rw [deepEqual_refl F hF P val v h.1, bind_ok_ite]
+    simp only [if_true]
+    exact deepEqEntries_refl F hF P r k v src (fun e he => hidx e (by simp [he])) h.2
+termination_by structural kvs
+theorem deepEqFields_refl (F : Facts) (hF : F.lenTest = true) (P : Prog) (as : List GoVal) :
+    ∀ (defs : List FieldDef), selfOKFields P defs as = true → deepEqFields F P defs as as = .ok true := by
+  intro defs h
+  cases as with
+  | nil => cases defs <;> simp_all [selfOKFields, deepEqFields]
+  | cons a as' =>
+    cases defs with
+    | nil => simp [selfOKFields] at h
+    | cons f fs =>
+      simp only [selfOKFields, Bool.and_eq_true] at h
+      have ih := deepEqFields_refl F hF P as' fs h.2
+      simp only [deepEqFields]
+      have hfield : (if isPtrField f = true then Res.ok (ptrBaseEq f.ty a a) else deepEqual F P f.ty a a) = Res.ok true := by
+        by_cases hp : isPtrField f = true
+        · simp only [hp, if_true, Bool.or_eq_true] at h ⊢
+          cases h.1 with
+          | inl hn => cases a <;> simp_all [isNilV, ptrBaseEq]
+          | inr hb =>
+            have := baseEq_self f.ty a hb
+            cases a <;> simp_all [ptrBaseEq]
+        · simp only [hp, if_false, Bool.false_eq_true] at h ⊢
+          exact deepEqual_refl F hF P a f.ty h.1
+      rw [hfield, bind_ok_ite]
+      simpa using ih
+termination_by structural as
+end
+
+/-! ### no false negatives when no map has struct-typed keys
+
+For programs without struct-typed map keys, two values that ARE structurally equal are reported equal (the defects
+that remain there — missing key read as zero, optional binary — only make DIFFERENT values compare equal). -/
+
+def _root_.Gen.Ty.noStructKey : Ty → Bool
+  | .list e => e.noStructKey
+  | .set e => e.noStructKey
+  | .map k v => !k.isStruct && k.noStructKey && v.noStructKey
+  | _ => true
+
+def _root_.Gen.Prog.noStructKey (P : Prog) : Bool :=
+  P.structs.all fun sd => sd.fields.all fun f => f.ty.noStructKey
+
+theorem scalarEq_baseEq (ty : Ty) (a b : GoVal) (h : scalarEq ty a b = true) : baseEq ty a b = true := by
+  cases ty <;> cases a <;> cases b <;> simp_all [baseEq, scalarEq, goEq, bytesOf]
+
+theorem struct_fields_noStructKey (P : Prog) (hP : P.noStructKey = true) (i : Nat) (sd : StructDef)
+    (hs : P.struct? i = some sd) : ∀ f ∈ sd.fields, f.ty.noStructKey = true := by
+  intro f hf
+  simp only [Prog.noStructKey, List.all_eq_true] at hP
+  have hmem : sd ∈ P.structs := by
+    simp only [Prog.struct?] at hs
+    exact List.mem_of_getElem? hs
+  exact hP sd hmem f hf
+
+mutual
+theorem valEq_deepEqual (F : Facts) (hF : F.lenTest = true) (P : Prog) (hP : P.noStructKey = true) (a : GoVal) :
+    ∀ (ty : Ty) (b : GoVal), ty.noStructKey = true → valEq P ty a b = true → deepEqual F P ty a b = .ok true := by
+  intro ty b hty h
+  have base : ∀ (ty : Ty) (a : GoVal), scalarEq ty a b = true → (Res.ok (baseEq ty a b) : Res Bool) = .ok true := by
+    intro ty a h; rw [scalarEq_baseEq ty a b h]
+  cases a with
+  | nil =>
+    cases ty <;> first
+      | (simp only [valEq] at h; simp only [deepEqual]; exact base _ _ h)
+      | (simp only [valEq] at h; simp [deepEqual, h])
+  | bool x => cases ty <;> (simp only [valEq] at h; simp only [deepEqual]; exact base _ _ h)
+  | int x => cases ty <;> (simp only [valEq] at h; simp only [deepEqual]; exact base _ _ h)
+  | dbl x => cases ty <;> (simp only [valEq] at h; simp only [deepEqual]; exact base _ _ h)
+  | bytes x => cases ty <;> (simp only [valEq] at h; simp only [deepEqual]; exact base _ _ h)
+  | list xs =>
+    cases ty <;> try (simp only [valEq] at h; simp only [deepEqual]; exact base _ _ h)
+    all_goals
+      rename_i e
+      simp only [valEq] at h
+      have hl := valEqList_length P e xs _ h
+      have := deepEqElems_complete F hF P hP xs e 0 (elemsOf b) (by simpa [Ty.noStructKey] using hty) (by simpa using h)
+      simp [deepEqual, hl, this]
+  | map kvs =>
+    cases ty <;> try (simp only [valEq] at h; simp only [deepEqual]; exact base _ _ h)
+    rename_i k v
+    simp only [Ty.noStructKey, Bool.and_eq_true, Bool.not_eq_true'] at hty
+    simp only [valEq, hty.1.1, Bool.false_eq_true, if_false, Bool.and_eq_true, beq_iff_eq] at h
+    have := deepEqEntries_complete F hF P hP kvs k v (entriesOf b) hty.2 h.2.1
+    simp [deepEqual, h.1, this]
+  | strct fs =>
+    cases ty <;> try (simp only [valEq] at h; simp only [deepEqual]; exact base _ _ h)
+    rename_i i
+    simp only [valEq] at h
+    simp only [deepEqual]
+    cases b <;> try (simp at h; done)
+    rename_i gs
+    cases hs : P.struct? i with
+    | none => simp [hs] at h
+    | some sd =>
+      simp only [hs] at h ⊢
+      exact deepEqFields_complete F hF P hP fs sd.fields gs (struct_fields_noStructKey P hP i sd hs) h
+termination_by structural a
+theorem deepEqElems_complete (F : Facts) (hF : F.lenTest = true) (P : Prog) (hP : P.noStructKey = true) (xs : List GoVal) :
+    ∀ (e : Ty) (i : Nat) (src : List GoVal), e.noStructKey = true → valEqList P e xs (src.drop i) = true →
+      deepEqElems F P e xs i src = .ok true := by
+  intro e i src he h
+  cases xs with
+  | nil => simp [deepEqElems]
+  | cons v r =>
+    have hi : i < src.length := by
+      cases hd : src.drop i with
+      | nil => simp [hd, valEqList] at h
+      | cons y t =>
+        have := congrArg List.length hd
+        simp at this; omega
+    rw [List.drop_eq_getElem_cons hi] at h
+    simp only [valEqList, Bool.and_eq_true] at h
+    simp only [deepEqElems, List.getElem?_eq_getElem hi]
+    rw [valEq_deepEqual F hF P hP v e _ he h.1, bind_ok_ite]
+    simp only [if_true]
+    exact deepEqElems_complete F hF P hP r e (i + 1) src he h.2
+termination_by structural xs
+theorem deepEqEntries_complete (F : Facts) (hF : F.lenTest = true) (P : Prog) (hP : P.noStructKey = true)
+    (kvs : List (GoVal × GoVal)) :
+    ∀ (k v : Ty) (src : List (GoVal × GoVal)), v.noStructKey = true → valEqEntries P k v kvs src = true →
+      deepEqEntries F P k v kvs src = .ok true := by
+  intro k v src hv h
+  cases kvs with
+  | nil => simp [deepEqEntries]
+  | cons x r =>
+    obtain ⟨key, val⟩ := x
+    simp only [valEqEntries, Bool.and_eq_true] at h
+    simp only [deepEqEntries]
+    cases hi : index k src key with
+    | none => simp [hi] at h
+    | some w =>
+      simp only [hi] at h ⊢
+      rw [valEq_deepEqual F hF P hP val v w hv h.1, bind_ok_ite]
+      simp only [if_true]
+      exact deepEqEntries_complete F hF P hP r k v src hv h.2
+termination_by structural kvs
+theorem deepEqFields_complete (F : Facts) (hF : F.lenTest = true) (P : Prog) (hP : P.noStructKey = true) (as : List GoVal) :
+    ∀ (defs : List FieldDef) (bs : List GoVal), (∀ f ∈ defs, f.ty.noStructKey = true) → valEqFields P defs as bs = true →
+      deepEqFields F P defs as bs = .ok true := by
+  intro defs bs hdefs h
+  cases as with
+  | nil => cases defs <;> cases bs <;> simp_all [valEqFields, deepEqFields]
+  | cons a as' =>
+    cases defs with
+    | nil => simp [valEqFields] at h
+    | cons f fs =>
+      cases bs with
+      | nil => simp [valEqFields] at h
+      | cons b bs' =>
+        simp only [valEqFields] at h
+        rw [Bool.and_eq_true] at h
+        have ih := deepEqFields_complete F hF P hP as' fs bs' (fun g hg => hdefs g (by simp [hg])) h.2
+        have hfty := hdefs f (by simp)
+        simp only [deepEqFields]
+        have hfield : (if isPtrField f = true then Res.ok (ptrBaseEq f.ty a b) else deepEqual F P f.ty a b) = Res.ok true := by
+          by_cases hq : (presenceSlot f && (isNilV a || isNilV b)) = true
+          · have h1 := h.1
+            simp only [hq, if_true, Bool.and_eq_true] at h1
+            have ha : a = .nil := by cases a <;> simp_all [isNilV]
+            have hb : b = .nil := by cases b <;> simp_all [isNilV]
+            subst ha; subst hb
+            by_cases hp : isPtrField f = true
+            · simp [hp, ptrBaseEq]
+            · simp only [hp, if_false, Bool.false_eq_true]
+              cases hty : f.ty <;> simp [deepEqual, isNilV, baseEq, bytesOf, goEq, elemsOf, entriesOf]
+          · have h1 := h.1
+            simp only [hq, if_false, Bool.false_eq_true] at h1
+            by_cases hp : isPtrField f = true
+            · have hps := isPtr_presence f hp
+              have hbase : f.ty.isBase = true := by
+                simp only [isPtrField, Bool.and_eq_true] at hp; exact hp.1.2
+              rw [valEq_base P f.ty a b hbase] at h1
+              have hbe := scalarEq_baseEq f.ty a b h1
+              simp only [hps, Bool.true_and, Bool.or_eq_true, not_or, Bool.not_eq_true] at hq
+              simp only [hp, if_true]
+              cases a <;> cases b <;> simp_all [isNilV, ptrBaseEq]
+            · simp only [hp, if_false, Bool.false_eq_true]
+              exact valEq_deepEqual F hF P hP a f.ty b hfty h1
+        rw [hfield, bind_ok_ite]
+        simpa using ih
+termination_by structural as
+end
+
 /-! ### witnesses (the directed program of harness/cmd/c18/directed.go, reduced to the structs used) -/
 namespace Witness
 
@@ -566,6 +893,14 @@ def P : Prog := { structs := [
   { kind := 0, fields := [fd 1 .default (.map (.struct 0) .i32)] },
   { kind := 0, fields := [fd 1 .optional .bin] },
   { kind := 0, fields := [fd 1 .default (.set (.map .i32 .i32))] }] }
+
+/-- `P` without the struct-keyed map -/
+def P1 : Prog := { structs := [
+  { kind := 0, fields := [fd 1 .default .i32] },
+  { kind := 0, fields := [fd 1 .default (.map .i32 .i32)] }] }
+
+/-- `struct D {1: double d}` -/
+def PD : Prog := { structs := [{ kind := 0, fields := [fd 1 .default .dbl] }] }
 
 def m10 : GoVal := .strct [.map [(.int 1, .int 0)]]
 def m20 : GoVal := .strct [.map [(.int 2, .int 0)]]
